@@ -6,12 +6,26 @@ package nbio
 //@ uses mempool.unborn
 
 // ---- ghost state
-// kSent[fd]    bytes the kernel has accepted for descriptor fd (advanced only by the trusted syscall contracts)
-// Conn.gPend   bytes sitting in the write queue (buffer entries: unsent part; file entries: remain)
-// Conn.gAcc    bytes the public write calls have reported as accepted
+// kSent[fd]      bytes the kernel has accepted for descriptor fd (advanced only by the trusted syscall contracts)
+// Stream positions: every byte accepted for a connection has a position in the connection's outbound stream.
+// Conn.gHead     position of the first byte not yet handed to the kernel      (all bytes: buffers and file ranges)
+// Conn.gTail     position after the last queued byte;  gTail - gHead = bytes sitting in the queue
+// Conn.gBHead/gBTail  the same two positions counting buffer bytes only (file ranges have no memory cost)
+// toWrite.gEnd/gBEnd  position after the last byte of this queue entry, in the two coordinates
+// Conn.gAcc      bytes the public write calls have reported as accepted
 //@ ghost kSent : (Array Int Int)
-//@ ghost Conn.gPend : Int
+//@ ghost Conn.gHead : Int
+//@ ghost Conn.gTail : Int
+//@ ghost Conn.gBHead : Int
+//@ ghost Conn.gBTail : Int
+//@ ghost toWrite.gEnd : Int
+//@ ghost toWrite.gBEnd : Int
 //@ ghost Conn.gAcc : Int
+// toWrite.gSeq / Conn.gSeq0: sequence numbers of queue entries (head has gSeq0); bufOwner[h]: the entry that owns handle h
+//@ ghost toWrite.gSeq : Int
+//@ ghost Conn.gSeq0 : Int
+//@ ghost bufOwner : (Array Int Int)
+//@ pred pend(c *Conn) := c.gTail - c.gHead
 
 // engine wiring, fixed when the connection is registered with its poller
 //@ pred Wired(c *Conn) := c.p != nil && c.p.g != nil && c.p.g.Config.BodyAllocator != nil
@@ -19,7 +33,12 @@ package nbio
 // ---- the write queue
 //@ pred BufEntry(t *toWrite) := t.buf != nil && liveP[t.buf] && t.fd == 0 && 0 <= t.offset && t.offset < len(*t.buf)
 //@ pred FileEntry(t *toWrite) := t.buf == nil && t.fd > 0 && t.remain > 0
-//@ pred QueueInv(c *Conn) := (forall k int :: 0 <= k && k < len(c.writeList) ==> c.writeList[k] != nil && alloc(c.writeList[k]) && (BufEntry(c.writeList[k]) || FileEntry(c.writeList[k]))) && (forall j int, k int :: 0 <= j && j < k && k < len(c.writeList) ==> c.writeList[j] != c.writeList[k] && (c.writeList[j].buf == nil || c.writeList[j].buf != c.writeList[k].buf)) && (len(c.writeList) == 0 ==> c.left == 0) && c.left >= 0
+//@ pred rest(t *toWrite) := ite(t.buf != nil, len(*t.buf) - t.offset, t.remain)
+//@ pred brest(t *toWrite) := ite(t.buf != nil, len(*t.buf) - t.offset, 0)
+//@ pred qlo(c *Conn) := off(c.writeList)
+//@ pred qhi(c *Conn) := off(c.writeList) + len(c.writeList)
+// entries are valid, pairwise distinct, and their stream positions chain: entry p ends rest(p) bytes after entry p-1
+//@ pred QueueInv(c *Conn) := (forall p int {mem(c.writeList, p)} :: qlo(c) <= p && p < qhi(c) ==> mem(c.writeList, p) != nil && alloc(mem(c.writeList, p)) && (BufEntry(mem(c.writeList, p)) || FileEntry(mem(c.writeList, p)))) && (forall p int {mem(c.writeList, p)} :: qlo(c) <= p && p < qhi(c) ==> mem(c.writeList, p).gSeq == c.gSeq0 + p - qlo(c) && (mem(c.writeList, p).buf != nil ==> bufOwner[mem(c.writeList, p).buf] == mem(c.writeList, p))) && (len(c.writeList) == 0 ==> c.gHead == c.gTail && c.gBHead == c.gBTail) && (len(c.writeList) > 0 ==> mem(c.writeList, qlo(c)).gEnd - c.gHead == rest(mem(c.writeList, qlo(c))) && mem(c.writeList, qlo(c)).gBEnd - c.gBHead == brest(mem(c.writeList, qlo(c))) && mem(c.writeList, qhi(c) - 1).gEnd == c.gTail && mem(c.writeList, qhi(c) - 1).gBEnd == c.gBTail) && (forall q int, p int {mem(c.writeList, q), mem(c.writeList, p)} :: qlo(c) <= q && q + 1 == p && p < qhi(c) ==> mem(c.writeList, p).gEnd - mem(c.writeList, q).gEnd == rest(mem(c.writeList, p)) && mem(c.writeList, p).gBEnd - mem(c.writeList, q).gBEnd == brest(mem(c.writeList, p))) && c.left == c.gBTail - c.gBHead
 
 //@ fieldfunc nbio.Engine.onWrittenSize
 //@   note user callback invoked under the connection mutex: assumed not to touch the connection or its queue
@@ -43,10 +62,125 @@ package nbio
 //@   safety index slice nil div assert panic make
 //@   requires Wired(c) && QueueInv(c) && len(buf) > 0
 //@   ensures left: c.left == old(c.left) + len(buf)                                         // prop C17
-//@   ensures pend: c.gPend == old(c.gPend) + len(buf)                                       // prop C01
+//@   ensures pend: pend(c) == old(pend(c)) + len(buf)                                       // prop C01
 //@   ensures inv: QueueInv(c)                                                               // prop C01 C11
 //@   ensures nonempty: len(c.writeList) > 0 && (len(c.writeList) == old(len(c.writeList)) || len(c.writeList) == old(len(c.writeList)) + 1)  // prop C01
 //@   ensures tail: len(*c.writeList[len(c.writeList)-1].buf) >= len(buf) && (forall p int :: off(*c.writeList[len(c.writeList)-1].buf) + len(*c.writeList[len(c.writeList)-1].buf) - len(buf) <= p && p < off(*c.writeList[len(c.writeList)-1].buf) + len(*c.writeList[len(c.writeList)-1].buf) ==> mem(*c.writeList[len(c.writeList)-1].buf, p) == memold(buf, p - (off(*c.writeList[len(c.writeList)-1].buf) + len(*c.writeList[len(c.writeList)-1].buf) - len(buf)) + off(buf)))  // prop C01
 //@   ensures prefix: forall k int :: 0 <= k && k < old(len(c.writeList)) - 1 ==> c.writeList[k] == old(c.writeList[k])   // prop C01
-//@   assigns c.left, c.gPend, c.writeList, liveP, toWrite.buf, toWrite.offset, toWrite.fd, toWrite.remain, comp("E.*nbio.toWrite"), comp("B.[]uint8"), comp("E.uint8"), allocates
-//@   at entry ghost { c.gPend = c.gPend + len(buf) }
+//@   assigns c.left, c.gTail, c.gBTail, c.writeList, toWrite.gEnd, toWrite.gBEnd, toWrite.gSeq, bufOwner, liveP, toWrite.buf, toWrite.offset, toWrite.fd, toWrite.remain, allelems("*toWrite"), allboxes("[]byte"), allelems("byte"), allocates
+//@   at call:Append#1 ghost { bufOwner[result] = tail; tail.gEnd = tail.gEnd + len(buf); tail.gBEnd = tail.gBEnd + len(buf); c.gTail = c.gTail + len(buf); c.gBTail = c.gBTail + len(buf) }
+//@ func (*Conn).newToWriteBuf$1
+//@   inline
+//@   at return ghost { t.gSeq = c.gSeq0 + len(c.writeList) - 1; bufOwner[pbuf] = t; t.gEnd = c.gTail + len(buf); t.gBEnd = c.gBTail + len(buf); c.gTail = c.gTail + len(buf); c.gBTail = c.gBTail + len(buf) }
+
+//@ pred maxw(c *Conn) := c.p.g.Config.MaxWriteBufferSize
+//@ pred isStream(c *Conn) := c.typ == ConnTypeTCP || c.typ == ConnTypeUnix
+
+//@ func (*Conn).writeStream
+//@   props C01
+//@   safety index slice nil div assert panic make
+//@   ensures range: (result1 == nil && 0 <= result0 && result0 <= len(b)) || (result1 != nil && result0 == -1 && istype(result1, "syscall.Errno"))  // prop C01
+//@   ensures sent: kSent[c.fd] == old(kSent[c.fd]) + ite(result0 > 0, result0, 0)          // prop C01
+//@   assigns kSent[c.fd]
+
+//@ func (*Conn).doWrite
+//@   props C01
+//@   safety index slice nil div assert panic make
+//@   requires c.p != nil && c.p.g != nil && isStream(c)
+//@   ensures range: (result1 == nil && 0 <= result0 && result0 <= len(b)) || (result1 != nil && result0 == -1 && istype(result1, "syscall.Errno"))  // prop C01
+//@   ensures sent: kSent[c.fd] == old(kSent[c.fd]) + ite(result0 > 0, result0, 0)          // prop C01
+//@   assigns kSent[c.fd]
+
+//@ func (*Conn).write
+//@   props C01 C17
+//@   safety index slice nil div assert panic make
+//@   requires Wired(c) && QueueInv(c) && isStream(c)
+//@   ensures ret: result1 == nil ==> result0 == len(b)                                                          // prop C01
+//@   ensures acct: result1 == nil ==> kSent[c.fd] + pend(c) == old(kSent[c.fd]) + old(pend(c)) + len(b)         // prop C01
+//@   ensures order: old(len(c.writeList)) > 0 ==> kSent[c.fd] == old(kSent[c.fd])                               // prop C01
+//@   ensures errkeep: result1 != nil ==> pend(c) == old(pend(c)) && c.left == old(c.left) && len(c.writeList) == old(len(c.writeList))  // prop C01 C17
+//@   ensures errsent: result1 != nil ==> kSent[c.fd] == old(kSent[c.fd])                                        // prop C01
+//@   ensures ovf: len(b) > 0 && maxw(c) > 0 && old(c.left) + len(b) > maxw(c) ==> result1 == errOverflow        // prop C17
+//@   ensures fits: !(maxw(c) > 0 && old(c.left) + len(b) > maxw(c)) ==> result1 != errOverflow                  // prop C17
+//@   ensures bound: maxw(c) > 0 && old(c.left) <= maxw(c) ==> c.left <= maxw(c)                                 // prop C17
+//@   ensures inv: QueueInv(c)                                                                                   // prop C01 C11
+//@   assigns kSent[c.fd], c.left, c.gTail, c.gBTail, c.writeList, toWrite.gEnd, toWrite.gBEnd, toWrite.gSeq, bufOwner, liveP, toWrite.buf, toWrite.offset, toWrite.fd, toWrite.remain, allelems("*toWrite"), allboxes("[]byte"), allelems("byte"), allocates
+
+// ---- more ghost state
+// kEv[fd]      epoll event mask registered for fd (-1: not registered); advanced only by the trusted EpollCtl contract
+// tArmed[t]    runtime timer t is armed; tDur[t] its duration
+//@ ghost kEv : (Array Int Int)
+//@ ghost tArmed : (Array Int Bool)
+//@ ghost tDur : (Array Int Int)
+
+// ---- the connection monitor: everything the mutex protects, and what holds whenever it is free
+//@ protected Conn by mux: left, writeList, closed, isWAdded, closeErr, rTimer, wTimer, gHead, gTail, gBHead, gBTail, gSeq0, gAcc, kSent[fd], kEv[fd], elems(writeList), toWrite.buf, toWrite.offset, toWrite.fd, toWrite.remain, toWrite.gEnd, toWrite.gBEnd, toWrite.gSeq
+//@ moninv queue: !self.closed ==> QueueInv(self)                                          // prop C01 C11 C17
+//@ moninv acct: !self.closed ==> self.gAcc == kSent[self.fd] + pend(self)                 // prop C01
+//@ moninv bound: !self.closed && self.p != nil && self.p.g != nil && maxw(self) > 0 ==> self.left <= maxw(self)   // prop C17
+
+//@ func (*Conn).modWrite
+//@   props C04
+//@   requires c.p != nil && c.p.g != nil
+//@   assigns c.isWAdded, kEv[c.fd], allocates
+//@   trusted
+//@ func (*Conn).resetRead
+//@   props C04
+//@   requires c.p != nil && c.p.g != nil
+//@   assigns c.isWAdded, kEv[c.fd], allocates
+//@   trusted
+
+//@ func (*Conn).closeWithErrorWithoutLock
+//@   trusted
+//@   havoc
+
+//@ func (*Conn).Write
+//@   props C01 C17
+//@   safety index slice nil div assert panic make lock
+//@   requires Wired(c) && isStream(c) && !holds(c.mux)
+//@   ensures ret: result1 == nil ==> result0 == len(b)                                     // prop C01
+//@   ensures unlocked: !holds(c.mux)                                                        // prop C01
+//@   assigns everything
+//@   at unlock#3 ghost { c.gAcc = c.gAcc + ite(err == nil, n, 0) }
+
+// ---- total length of a list of buffers: sumlen(row(in), off(in), k) = len(in[0]) + ... + len(in[k-1])
+//@ ghost fun sumlen : ((Array Int Slice) Int Int) Int
+//@ axiom sumlen0: forall r (Array Int Slice), o int {sumlen(r, o, 0)} :: sumlen(r, o, 0) == 0
+//@ axiom sumlenS: forall r (Array Int Slice), o int, k int {sumlen(r, o, k), r[o + k]} :: k >= 0 ==> sumlen(r, o, k + 1) == sumlen(r, o, k) + len(r[o + k])
+//@ pred total(in [][]byte) := sumlen(row(in), off(in), len(in))
+
+// the vectored write system call (writev_linux.go: unsafe pointers, raw Syscall) is trusted
+//@ func writev
+//@   trusted
+//@   requires c != nil
+//@   ensures range: (result1 == nil && 0 <= result0 && result0 <= total(bs)) || (result1 != nil && result0 == -1 && istype(result1, "syscall.Errno"))
+//@   ensures progress: result1 == nil && total(bs) > 0 ==> result0 > 0
+//@   ensures sent: kSent[c.fd] == old(kSent[c.fd]) + ite(result0 > 0, result0, 0)
+//@   assigns kSent[c.fd], allocates
+
+//@ func (*Conn).writev
+//@   props C01 C17
+//@   safety index slice nil div assert panic make
+//@   requires Wired(c) && QueueInv(c) && isStream(c)
+//@   ensures ret: result1 == nil ==> result0 == total(in)                                                            // prop C01
+//@   ensures acct: result1 == nil ==> kSent[c.fd] + pend(c) == old(kSent[c.fd]) + old(pend(c)) + total(in)           // prop C01
+//@   ensures order: old(len(c.writeList)) > 0 ==> kSent[c.fd] == old(kSent[c.fd])                                    // prop C01
+//@   ensures errkeep: result1 != nil ==> pend(c) == old(pend(c)) && c.left == old(c.left) && len(c.writeList) == old(len(c.writeList))  // prop C01 C17
+//@   ensures errsent: result1 != nil ==> kSent[c.fd] == old(kSent[c.fd])                                             // prop C01
+//@   ensures ovf: maxw(c) > 0 && old(c.left) + total(in) > maxw(c) ==> result1 == errOverflow                        // prop C17
+//@   ensures bound: maxw(c) > 0 && old(c.left) <= maxw(c) ==> c.left <= maxw(c)                                      // prop C17
+//@   ensures inv: QueueInv(c)                                                                                        // prop C01 C11
+//@   assigns kSent[c.fd], c.left, c.gTail, c.gBTail, c.writeList, toWrite.gEnd, toWrite.gBEnd, toWrite.gSeq, bufOwner, liveP, toWrite.buf, toWrite.offset, toWrite.fd, toWrite.remain, allelems("*toWrite"), allboxes("[]byte"), allelems("byte"), allocates
+//@   loop 1
+//@     invariant -1 <= rangeindex && rangeindex < len(in) || (len(in) == 0 && rangeindex == -1)
+//@     invariant size == sumlen(row(in), off(in), rangeindex + 1)
+//@   loop 2
+//@     invariant -1 <= rangeindex && (rangeindex < len(in) || (len(in) == 0 && rangeindex == -1))
+//@     invariant Wired(c) && QueueInv(c)
+//@     invariant pend(c) == old(pend(c)) + sumlen(row(in), off(in), rangeindex + 1) && c.left == old(c.left) + sumlen(row(in), off(in), rangeindex + 1)
+//@     invariant kSent[c.fd] == old(kSent[c.fd]) && len(c.writeList) > 0
+//@   loop 3
+//@     invariant 0 <= i && i <= len(in) && 0 <= n && (n > 0 ==> n <= size - sumlen(row(in), off(in), i))
+//@     invariant Wired(c) && QueueInv(c)
+//@     invariant pend(c) == old(pend(c)) + sumlen(row(in), off(in), i) - (nwrite - n) && c.left == old(c.left) + sumlen(row(in), off(in), i) - (nwrite - n)
+//@     invariant kSent[c.fd] == old(kSent[c.fd]) + nwrite
